@@ -89,7 +89,10 @@ def run(ctx, out):
                 "workers 1/4/64; each run must end within %d s of wall clock and, for reported-class faults, with a non-zero "
                 "status; FIFOs and sockets are never opened; (b) library: probe copy with channel / recording / no-op updaters "
                 "under the same kind of faults: copy() returns and the update channel closes; block_size 0 returns an error; "
-                "(c) empty trees; non-trivial = run with an injected fault; distinct = (plan, driver, workers, entry point)"
+                "(c) empty trees; (d) a FIFO / socket / directory / dangling link / link-to-FIFO named .gitignore under --gitignore "
+                "(root and sub-directory): never opened, run ends; (e) the environment truncates the source at the n-th "
+                "copy_file_range / lseek / pread / read on it (dense and sparse, both drivers, kernel copy available or failing "
+                "with EXDEV / ENOSYS): the run must end; non-trivial = run with an injected fault; distinct = (plan, driver, workers, entry point)"
                 % (nfiles, bound_ms // 1000))
     src_master = os.path.join(d0, "master")
     make_tree(os.path.join(src_master, "src"), nfiles, 6, 4)
@@ -214,6 +217,107 @@ def run(ctx, out):
             if r.meta.get("timeout") or r.exit != 0:
                 out.violation("empty tree: exit %d timeout %r" % (r.exit, r.meta.get("timeout")), dict(argv=argv[1:]))
             shutil.rmtree(d, ignore_errors=True)
+    # (d) inputs whose NAMES make xcp read them: a FIFO / socket / directory / dangling link called .gitignore under
+    #     --gitignore (at the root and below it) must be recreated like any other entry, never opened
+    import fsutil
+    for kind in ("fifo", "sock", "dir", "dangling", "link-to-fifo"):
+        for where in ("root", "sub"):
+            for driver in ("parfile", "parblock"):
+                d = os.path.join(d0, "gi_%s_%s_%s" % (kind, where, driver))
+                base = os.path.join(d, "src") if where == "root" else os.path.join(d, "src", "sub")
+                os.makedirs(base)
+                os.makedirs(os.path.join(d, "src", "other"), exist_ok=True)
+                open(os.path.join(d, "src", "other", "a.txt"), "wb").write(b"a" * 100)
+                gi = os.path.join(base, ".gitignore")
+                if kind == "fifo":
+                    os.mkfifo(gi)
+                elif kind == "sock":
+                    sk = socket.socket(socket.AF_UNIX)
+                    cwd = os.getcwd()
+                    try:
+                        os.chdir(base)
+                        sk.bind(".gitignore")
+                    finally:
+                        os.chdir(cwd)
+                        sk.close()
+                elif kind == "dir":
+                    os.makedirs(gi)
+                elif kind == "dangling":
+                    os.symlink("nowhere", gi)
+                else:
+                    os.mkfifo(os.path.join(base, "pipe"))
+                    os.symlink("pipe", gi)
+                argv = [ctx.bins["xcp"], "-r", "--gitignore", "--driver", driver, "src", "dst"]
+                r = xcp.run_supervised(sup, argv, d, d, tag="g", timeout_ms=15000)
+                out.case(("gitignore-special", kind, where, driver), True)
+                out.count("special_named_gitignore")
+                rep = dict(argv=argv[1:], gitignore_is=kind, at=where)
+                # an open of the special file itself that succeeded or never returned (a failed attempt on a path that
+                # does not exist, or ENXIO from a socket, opens nothing)
+                specials = {gi, os.path.join(base, "pipe")} if kind in ("fifo", "sock", "link-to-fifo") else set()
+                opened = [e["p1"] for e in r.trace if e["sys"] in ("openat", "open") and e["p1"] in specials
+                          and (e.get("ret") is None or e["ret"] >= 0)]
+                if r.meta.get("timeout") or r.exit == 124:
+                    out.violation("xcp --gitignore does not terminate when .gitignore is a %s (%s of the source)" % (kind, where), rep)
+                elif opened:
+                    out.violation("a special file named .gitignore was opened: %s" % opened[:2], rep)
+                elif r.exit == 0:
+                    # a .gitignore that is not a regular file filters nothing and is itself recreated like any entry
+                    import stat as _st
+                    want = os.lstat(gi).st_mode
+                    rel = os.path.relpath(gi, os.path.join(d, "src"))
+                    try:
+                        got = os.lstat(os.path.join(d, "dst", rel)).st_mode
+                    except OSError:
+                        got = None
+                    if got is None or _st.S_IFMT(got) != _st.S_IFMT(want) or not os.path.exists(os.path.join(d, "dst", "other", "a.txt")):
+                        out.violation("--gitignore with a %s named .gitignore: exit 0 but the entry was not recreated / the tree is incomplete" % kind, rep)
+                shutil.rmtree(d, ignore_errors=True)
+    # (e) the ENVIRONMENT shrinks a source while it is being copied (the supervisor truncates it at a chosen call of
+    #     xcp on that file): every loop must notice the lack of progress — dense and sparse sources, both drivers,
+    #     kernel copy available or not (user-space fallbacks), truncation to 0 / to the current position / mid-block
+    bs = 16384
+    layouts = [("dense", 10 * bs + 77, None), ("sparse", (4 << 20) + 4096, [(0, 4 * bs), (2 << 20, (2 << 20) + 4 * bs), (4 << 20, (4 << 20) + 4096)])]
+    shrink_jobs = []
+    for (lname, size, data) in layouts:
+        for driver in ("parfile", "parblock"):
+            for cfr in (None, E["EXDEV"], E["ENOSYS"]):
+                calls = ["copy_file_range", "lseek"] if cfr is None else ["pread64", "read", "lseek"]
+                for sysn in calls:
+                    for nth in ((1, 2, 3, 4, 5, 7) if not quick else (1, 2, 4, 5)):
+                        for to in (0, 4 * bs, 4 * bs + 100):
+                            if quick and rng.random() < 0.5:
+                                continue
+                            shrink_jobs.append((lname, size, data, driver, cfr, sysn, nth, to))
+
+    def shrink(job, idx):
+        (lname, size, data, driver, cfr, sysn, nth, to) = job
+        d = os.path.join(d0, "sh%d" % idx)
+        os.makedirs(d)
+        src = os.path.join(d, "src.bin")
+        fsutil.make_file(src, size, data if data is not None else [(0, size)], tag=idx + 1, sync=True)
+        rules = [("trunc", to, 0, sysn, nth, "=" + src)]
+        if cfr is not None:
+            rules.append(("fail", cfr, 0, "copy_file_range", 0, "*"))
+        argv = [ctx.bins["xcp"], "--driver", driver, "--block-size", str(bs), "-w", "2", "src.bin", "dst.bin"]
+        r = xcp.run_supervised(sup, argv, d, d, rules=rules, tag="s", timeout_ms=20000)
+        fired = any("trunc" in (e.get("inj") or "") for e in r.trace)
+        res = dict(job=job, exit=r.exit, timeout=bool(r.meta.get("timeout")) or r.exit == 124, fired=fired, argv=argv[1:], rules=rules,
+                   ncalls=len(r.trace))
+        shutil.rmtree(d, ignore_errors=True)
+        return res
+
+    with concurrent.futures.ThreadPoolExecutor(max_workers=8) as ex:
+        sres = list(ex.map(lambda t: shrink(t[1], t[0]), list(enumerate(shrink_jobs))))
+    for res in sres:
+        (lname, size, data, driver, cfr, sysn, nth, to) = res["job"]
+        out.case(("shrink", lname, driver, cfr, sysn, nth, to), nontrivial=res["fired"])
+        out.count("source_shrinks_mid_copy" + ("" if res["fired"] else "_rule_not_reached"))
+        if res["timeout"]:
+            out.violation("xcp spins when the source shrinks to %d bytes at its %s #%d (%s layout, %s, copy_file_range %s; %d calls "
+                          "traced before the bound)" % (to, sysn, nth, lname, driver, "available" if cfr is None else "failing with %d" % cfr,
+                                                       res["ncalls"]),
+                          dict(argv=res["argv"], rules=res["rules"], layout=lname, size=size, data=data))
     shutil.rmtree(src_master, ignore_errors=True)
     shutil.rmtree(small, ignore_errors=True)
     out.sample(dict(plans=[p[0] for p in plans(nfiles)]))
